@@ -164,6 +164,15 @@ class Units:
                 for d in fn.defs().get(l, []):
                     if d[0] == "stmt" and d[3]["rv"].get("agg") == "tuple" and first["f"] < len(d[3]["rv"]["ops"]):
                         return self.unit_of(fn, d[3]["rv"]["ops"][first["f"]], depth + 1)
+            # a field of a struct value built in this body (`let span = a..b; span.start`): the operand that was put there
+            if isinstance(first, dict) and "f" in first and first.get("of") not in ("tuple", "closure"):
+                built = [d for d in fn.defs().get(l, []) if d[0] == "stmt" and isinstance(d[3]["rv"].get("agg"), dict) and d[3]["rv"]["agg"].get("adt") == first.get("of")]
+                if built and len(built) == len(fn.defs().get(l, [])) and all(first["f"] < len(d[3]["rv"]["ops"]) for d in built):
+                    us = [self.unit_of(fn, d[3]["rv"]["ops"][first["f"]], depth + 1) for d in built]
+                    r = us[0]
+                    for x in us[1:]:
+                        r = join(r, x)
+                    return r
             # a projection of something computed: (checked op).0, (Option as Some).0, tuple fields of call results
             base = self.unit_of_place(fn, {"l": l, "p": []}, depth + 1)
             return base
